@@ -45,6 +45,9 @@ package stream
 // answers the request itself (short circuit); early: early response on a request walk (hand-over to the response path).
 //@ ghost func reqT(a publictypes.APIStreamI) bool = a.GetActionsType() == publictypes.StreamTypeRequest
 //@ ghost func resT(a publictypes.APIStreamI) bool = a.GetActionsType() == publictypes.StreamTypeResponse
+// the caller hands over the action list of the message it is handling only (the request list with an on-request message,
+// the response list with an on-response one); the other one may be missing
+//@ ghost func listsFit(a publictypes.APIStreamI, act *streamconfig.StreamActions) bool = act != nil && (reqT(a) ==> act.Request != nil) && (resT(a) ==> act.Response != nil)
 //@ ghost func scReq(a publictypes.APIStreamI, io streamtypes.ProcessorIO) bool = reqT(a) && !ifacenil(io.ReqAction) && io.ShortCircuit != nil
 //@ ghost func scRes(a publictypes.APIStreamI, io streamtypes.ProcessorIO) bool = resT(a) && io.ShortCircuit != nil
 //@ ghost func early(a publictypes.APIStreamI, io streamtypes.ProcessorIO) bool = (reqT(a) || resT(a)) && !scReq(a, io) && !scRes(a, io) && io.Type == publictypes.StreamTypeResponse && a.GetType() == publictypes.StreamTypeRequest
@@ -63,7 +66,7 @@ package stream
 //@   ghostlocal me int
 //@   ghostlocal cidx gmap[int]int
 //@   ghostlocal hi int
-//@   requires s != nil && actions != nil && actions.Request != nil && actions.Response != nil && xlen >= 0
+//@   requires s != nil && listsFit(apiStream, actions) && xlen >= 0
 //@   requires typeis(node, *streamflow.FlowGraphNode) && nd(node) != nil && allocated(nd(node))
 //@   requires typeis(flow, *streamflow.Flow) && flow.(*streamflow.Flow) != nil && flow.(*streamflow.Flow).response != nil && flow.(*streamflow.Flow).flowRep != nil
 //@   requires[response-nodes] forall(k, string, in(k, flow.(*streamflow.Flow).response.nodes) ==> flow.(*streamflow.Flow).response.nodes[k] != nil && allocated(flow.(*streamflow.Flow).response.nodes[k]) && flow.(*streamflow.Flow).response.nodes[k].ranked)
